@@ -943,9 +943,15 @@ def contexts_active_in_frame(
         # self argument to its __exit__ or __aexit__ method in
         # the next frame
         args = inspect.getargvalues(next_inner)
-        if args.args:
+        if next_inner.f_code.co_argcount:
             # (the exit method might have unbound its first argument: 'del self')
             ret[-1].obj = args.locals.get(args.args[0])
+        elif args.varargs is not None:
+            # def __exit__(*args): no named positional parameter (args.args
+            # then lists only keyword-only names), self is args[0]
+            varargs = args.locals.get(args.varargs)
+            if isinstance(varargs, tuple) and varargs:
+                ret[-1].obj = varargs[0]
 
     return ret
 
